@@ -62,12 +62,8 @@ def run(tier, seed, opens):
             ok += 1
             return
         # deviation: is it exactly one of the pinned ones?
-        alt = sp.eval_script(cmds, pinned, truth=_pinned_truth, else_once=True)
+        alt = sp.eval_script(cmds, pinned)
         pids = {used_pin[c] for c in cmds if isinstance(c, int) and c in used_pin}
-        if sum(1 for c in cmds if c == 103 and isinstance(c, int)) >= 2:
-            pids.add('F-C19-multiple-else')
-        if bool(got) != bool(sp.eval_script(cmds, pinned, truth=sp.cast_to_bool, else_once=True)) or not pids:
-            pids.add('F-C19-final-truth')
         pids = sorted(pids)
         cex = {'input': {'commands': [c if isinstance(c, int) else {'bytes': c.hex()} for c in cmds]},
                'observed': repr(got), 'expected': repr(want), 'confirmed': True, 'obligation': 'Script.evaluate#bounded'}
